@@ -14,6 +14,39 @@ ALLOWED_AXIOMS = {'propext', 'Classical.choice', 'Quot.sound'}
 FORBIDDEN = re.compile(r'\b(sorry|admit|native_decide|bv_decide|implemented_by|unsafe)\b|^\s*axiom\s|maxHeartbeats\s+0\b')
 
 
+def import_closure(modules):
+    """Modules of this package (PybtexModel.* / Driver) reachable through `import` lines from the given ones."""
+    seen = set()
+    todo = list(modules)
+    while todo:
+        m = todo.pop()
+        if m in seen:
+            continue
+        seen.add(m)
+        path = os.path.join(LEAN_DIR, *m.split('.')) + '.lean'
+        if not os.path.exists(path):
+            continue
+        for line in open(path, encoding='utf-8'):
+            mm = re.match(r'\s*import\s+(PybtexModel[\w.]*)', line)
+            if mm:
+                todo.append(mm.group(1))
+    return seen
+
+
+def build_driver_one(drv_ids, timeout=3000):
+    """Build the fallback driver that links only the handlers of the given Drv modules.  Returns (ok, log)."""
+    src = open(os.path.join(LEAN_DIR, 'Driver.lean'), encoding='utf-8').read()
+    head, rest = src.split('import PybtexModel.Drv.Json\n', 1)
+    body = rest[rest.index('open Lean'):]
+    body = re.sub(r'(def allHandlers[^\n]*\n\s*\[[^\n]*\n)((?:\s*\+\+ C\d+\.handlers\n)+)',
+                  lambda m: m.group(1) + ''.join('  ++ %s.handlers\n' % d for d in drv_ids), body)
+    text = head + 'import PybtexModel.Drv.Json\n' + ''.join('import PybtexModel.Drv.%s\n' % d for d in drv_ids) + body
+    with open(os.path.join(LEAN_DIR, 'DriverOne.lean'), 'w', encoding='utf-8') as f:
+        f.write(text)
+    rc, out = _run(['lake', 'build', 'driverone'], timeout)
+    return rc == 0, out
+
+
 class ToolFailure(Exception):
     """Infrastructure problem (timeout, tool crash): exit status 2, never a VIOLATION."""
 
